@@ -60,9 +60,21 @@ def write_project(d, cfg, sources=None):
             # relative filelist: the write mode runs on a COPY of the state, whose absolute paths differ
             + "filelist_type = \"relative\"\n"
             + ("" if cfg.get("std") else "exclude_std = true\n"))
+    sources = dict(sources or SRC)
+    if cfg.get("dep"):
+        # a (non-$std) path dependency: its outputs go to dependencies/dep1/src/*.sv of the main project
+        toml += "[dependencies]\ndep1 = {path = \"../dep\"}\n"
+        sources["e.veryl"] = "module ModE (\n    o: output logic,\n) {\n    inst u: dep1::ModD (\n        o,\n    );\n}\n"
+        dd = os.path.join(os.path.dirname(d), "dep")
+        shutil.rmtree(dd, ignore_errors=True)
+        os.makedirs(f"{dd}/src")
+        with open(f"{dd}/Veryl.toml", "w") as fh:
+            fh.write("[project]\nname = \"deplib\"\nversion = \"0.1.0\"\n[build]\nsources = [\"src\"]\nexclude_std = true\n")
+        with open(f"{dd}/src/d.veryl", "w") as fh:
+            fh.write("pub module ModD (\n    o: output logic,\n) {\n    assign o = 0;\n}\n")
     with open(f"{d}/Veryl.toml", "w") as fh:
         fh.write(toml)
-    for n, t in (sources or SRC).items():
+    for n, t in sources.items():
         with open(f"{d}/src/{n}", "w") as fh:
             fh.write(t)
 
@@ -115,6 +127,10 @@ MUTATIONS = {
     "missing-std-output": lambda d, c: os.remove(first_std(d, ".sv")),
     "edited-std-output": lambda d, c: edit(first_std(d, ".sv"), lambda t: t + "// hand edit\n"),
     "missing-std-map": lambda d, c: os.remove(first_std(d, ".sv.map")),
+    "missing-dep-output": lambda d, c: os.remove(f"{d}/dependencies/dep1/src/d.sv"),
+    "edited-dep-output": lambda d, c: edit(f"{d}/dependencies/dep1/src/d.sv", lambda t: t + "// hand edit\n"),
+    "stale-dep-source": lambda d, c: edit(f"{d}/../dep/src/d.veryl", lambda t: t.replace("assign o = 0;", "assign o = 1;")),
+    "missing-dep-map": lambda d, c: os.remove(f"{d}/dependencies/dep1/src/d.sv.map"),
 }
 
 
@@ -137,6 +153,7 @@ NOMAP = {"target": "directory:target", "map": "none"}
 MAPDIR = {"target": "directory:out", "map": "directory:maps"}
 BUNDLE = {"target": "bundle:all.sv", "map": "none"}
 STD = {"target": "directory:target", "map": "target", "std": True}
+DEPC = {"target": "directory:target", "map": "target", "dep": True}
 
 BUILD_SCENARIOS = (
     [("fresh", DIRT, None), ("fresh", BUNDLE, None)]
@@ -147,6 +164,7 @@ BUILD_SCENARIOS = (
     + [(m, MAPDIR, m) for m in ("built", "missing-map", "edited-output")]
     + [(m, BUNDLE, m) for m in ("built", "stale-source", "missing-bundle", "edited-bundle", "missing-filelist", "edited-filelist")]
     + [(m, STD, m) for m in ("missing-std-output", "missing-std-map")]
+    + [(m, DEPC, m) for m in ("built", "missing-dep-output", "edited-dep-output", "stale-dep-source", "missing-dep-map")]
 )
 # (each $std scenario emits the ~50 files of the standard library three times: more of them only in the thorough tier)
 STD_THOROUGH = [(m, STD, m) for m in ("built", "edited-std-output", "missing-output")]
@@ -159,7 +177,9 @@ def st(before, after, p):
 
 
 def build_scenario(i, name, cfg, mut, root, scratch):
-    d = f"{root}/b{i}"
+    base = f"{root}/b{i}"
+    shutil.rmtree(base, ignore_errors=True)
+    d = f"{base}/main"
     write_project(d, cfg)
     log = ""
     if mut is not None:
@@ -167,9 +187,9 @@ def build_scenario(i, name, cfg, mut, root, scratch):
         if rc != 0:
             return {"name": name, "cfg": cfg, "error": f"initial build failed: {log[-400:]}"}
         MUTATIONS[mut](d, cfg)
-    c = f"{root}/b{i}-copy"
-    shutil.rmtree(c, ignore_errors=True)
-    shutil.copytree(d, c)
+    shutil.rmtree(f"{root}/b{i}-copy", ignore_errors=True)
+    shutil.copytree(base, f"{root}/b{i}-copy")
+    c = f"{root}/b{i}-copy/main"
     snap0 = outputs(d, "build")
     rc_check, log_check = veryl(d, ["build", "--check"], scratch)
     snap1 = outputs(d, "build")
@@ -251,7 +271,7 @@ def run(ctx):
         "formatter, emitter, filelist and bundle assembly are parameters of the model (their outputs are whatever the CLI produces)",
         "analysis errors abort both modes before anything is compared or written; .build/, Veryl.lock are not emitted files",
         "checks/c27.py (states are classified from before/after hashes of a write-mode run on a copy)"]
-    ctx.cov["rule"] = ("project states {fresh, built, stale source, missing / hand-edited output, map, filelist, bundle, $std output} × "
+    ctx.cov["rule"] = ("project states {fresh, built, stale source, missing / hand-edited output, map, filelist, bundle, $std output, output of a path dependency} × "
                        "target {directory, source, bundle} × sourcemap_target {target, directory, none} × std on/off; fmt: every "
                        "formatted/unformatted/unparsable assignment of three files → exit status of `--check` vs the set of files the "
                        "write mode changes on a copy (oracle) and vs M-CheckModes fed with the observed per-file states")
@@ -265,14 +285,18 @@ def run(ctx):
         write_project(f"{scratch}/norm", NOMAP)
         veryl(f"{scratch}/norm", ["fmt"], scratch)
         formatted = {n: open(f"{scratch}/norm/src/{n}").read() for n in SRC}
+        # expand the standard library into the scratch cache ONCE before anything runs in parallel
+        # (`veryl_std::expand` is not safe against a concurrent first use, C30 / DESIGN §5 #10)
+        write_project(f"{scratch}/warm", STD)
+        veryl(f"{scratch}/warm", ["build"], scratch)
         scen = list(BUILD_SCENARIOS)
         if ctx.tier == "thorough":
             scen += STD_THOROUGH
             rng = random.Random(ctx.seed)
             for _ in range(60):
-                cfg = rng.choice([DIRT, SRCT, NOMAP, MAPDIR, BUNDLE, STD])
+                cfg = rng.choice([DIRT, SRCT, NOMAP, MAPDIR, BUNDLE, STD, DEPC])
                 muts = [m for m in MUTATIONS
-                        if ("bundle" in m) <= (cfg is BUNDLE) and ("std" in m) <= (cfg is STD)
+                        if ("bundle" in m) <= (cfg is BUNDLE) and ("std" in m) <= (cfg is STD) and ("dep" in m) <= (cfg is DEPC)
                         and not (cfg is BUNDLE and m in ("missing-output", "edited-output", "missing-map", "edited-map"))
                         and not (cfg["map"] == "none" and "map" in m)]
                 m = rng.choice(muts)
